@@ -59,6 +59,19 @@ func GOr(gs ...Guard) Guard { return Guard{op: gOr, kids: gs} }
 // GAnyOf is the disjunction of guards.
 func GAnyOf(gs ...Guard) Guard { return GOr(gs...) }
 
+// GSame is one leaf for several spellings of the same atomic condition (each alternative a single-leaf guard): the
+// spellings are one variable of the analysis, not independent ones as in GOr.
+func GSame(gs ...Guard) Guard {
+	return GFunc(func(ft Fact) bool {
+		for _, g := range gs {
+			if g.Accepts(ft) {
+				return true
+			}
+		}
+		return false
+	})
+}
+
 // GNot negates a guard.
 func GNot(g Guard) Guard { return Guard{op: gNot, kids: []Guard{g}} }
 
@@ -273,6 +286,32 @@ func (ca *condAtoms) form(e ast.Expr, depth int) *cform {
 				}
 			}
 		}
+		// an (in)equality of two boolean operands is a formula over them
+		if (x.Op == token.EQL || x.Op == token.NEQ) && depth < 4 {
+			isBool := func(e ast.Expr) bool {
+				tv, ok := f.Info().Types[e]
+				if !ok || tv.Type == nil {
+					return false
+				}
+				b, ok := tv.Type.Underlying().(*types.Basic)
+				return ok && b.Info()&types.IsBoolean != 0
+			}
+			if isBool(x.X) && isBool(x.Y) {
+				a1, b1 := ca.form(x.X, depth+1), ca.form(x.Y, depth+1)
+				a2, b2 := ca.form(x.X, depth+1), ca.form(x.Y, depth+1)
+				same := &cform{op: gOr, kids: []*cform{
+					{op: gAnd, kids: []*cform{a1, b1}},
+					{op: gAnd, kids: []*cform{{op: gNot, kids: []*cform{a2}}, {op: gNot, kids: []*cform{b2}}}},
+				}}
+				// the whole comparison stays recognisable by a leaf written for it
+				if x.Op == token.EQL {
+					same.expr = x
+					return same
+				}
+				same.expr = &ast.BinaryExpr{X: x.X, Op: token.EQL, Y: x.Y, OpPos: x.OpPos}
+				return &cform{op: gNot, kids: []*cform{same}}
+			}
+		}
 		switch x.Op {
 		case token.LAND:
 			return &cform{op: gAnd, kids: []*cform{ca.form(x.X, depth), ca.form(x.Y, depth)}, expr: x}
@@ -356,6 +395,18 @@ func (cf *cform) atomsUsed(set map[int]bool) {
 	for _, k := range cf.kids {
 		k.atomsUsed(set)
 	}
+}
+
+func (cf *cform) usesFlag() bool {
+	if cf.op == gLeaf && cf.atom < 0 {
+		return true
+	}
+	for _, k := range cf.kids {
+		if k.usesFlag() {
+			return true
+		}
+	}
+	return false
 }
 
 // composites lists the and/or nodes of the formula (a leaf written for a whole
@@ -468,10 +519,11 @@ func (g *Graph) newGuardAnalysis(gd Guard, withFlags bool) *guardAnalysis {
 			cf := ga.ca.form(c.E, 0)
 			used := map[int]bool{}
 			cf.atomsUsed(used)
-			if len(used) < 2 {
+			usesFlag := cf.usesFlag()
+			if len(used) < 2 && !(usesFlag && len(used) == 1) {
 				continue
 			}
-			relevant := false
+			relevant := usesFlag
 			for j := range used {
 				if len(ga.tiesFor(j)) > 0 {
 					relevant = true
@@ -1200,6 +1252,24 @@ func signCmpParts(f *Fn, be *ast.BinaryExpr) (id *ast.Ident, nonNeg bool, ok boo
 	if !isId || cv == nil {
 		return nil, false, false
 	}
+	// a string local that only ever holds constants, compared with "": the flag is "is empty" (true for the zero value)
+	if cv.Kind() == constant.String {
+		if tv, has := f.Info().Types[id]; !has || tv.Type == nil {
+			return nil, false, false
+		} else if b, isB := tv.Type.Underlying().(*types.Basic); !isB || b.Info()&types.IsString == 0 {
+			return nil, false, false
+		}
+		if constant.StringVal(cv) != "" {
+			return nil, false, false
+		}
+		switch op {
+		case token.EQL:
+			return id, true, true
+		case token.NEQ:
+			return id, false, true
+		}
+		return nil, false, false
+	}
 	c, exact := constantInt(cv)
 	if !exact {
 		return nil, false, false
@@ -1222,6 +1292,9 @@ func signCmpParts(f *Fn, be *ast.BinaryExpr) (id *ast.Ident, nonNeg bool, ok boo
 func signOf(f *Fn, e ast.Expr) (nonNeg bool, known bool) {
 	e = ast.Unparen(e)
 	if cv := f.ConstVal(e); cv != nil {
+		if cv.Kind() == constant.String {
+			return constant.StringVal(cv) == "", true
+		}
 		if c, exact := constantInt(cv); exact {
 			if c == -1 {
 				return false, true
